@@ -37,7 +37,8 @@ def main():
     det = json.load(open(dp)) if os.path.exists(dp) else {}
     for seed in want:
         m = SEEDS[seed]
-        r = run(seed, m["property"])
+        r = run(seed, m.get("check", m["property"]))
+        det = json.load(open(dp)) if os.path.exists(dp) else {}      # re-read: several matrix runs may work on disjoint seeds
         e = det.setdefault(seed, {})
         e["final"] = r
         e["caught"] = r["exit"] == 1
